@@ -8,3 +8,5 @@ EXPLANATION = 'Per DW_RLE/DW_LLE kind: the raw entry decoders consume the standa
 def run(rep, ctx):
     run_specs(rep, ctx, 'C08')
     run_D8(rep, ctx.g)
+    from ..guards import run_S_header
+    run_S_header(rep, ctx.g)
